@@ -35,9 +35,9 @@ def ctx_field(fn, e):
         else:
             e = ir.strip_casts(e[2])
     if isinstance(e, list) and e and e[0] == "m":
-        b = ir.strip_casts(e[1])
+        b = ir.strip_casts(fn.resolve(e[1]))
         if isinstance(b, list) and b and b[0] == "u" and b[1] == "*":
-            b = ir.strip_casts(b[2])
+            b = ir.strip_casts(fn.resolve(b[2]))
         if isinstance(b, list) and b and b[0] == "v":
             v = fn.vars[b[1]]
             if "ctx_t" in (v.get("t") or ""):
